@@ -5,7 +5,7 @@ import core as C
 import builders as B
 
 def driver(flavour="rel"):
-    return os.path.join(C.VERIF, "build", "drivers", flavour, "stop_driver")
+    return os.path.join(C.BUILD, "drivers", flavour, "stop_driver")
 
 def run_stop(path, mode, k, delay=0, flavour="rel", timeout=20):
     env = dict(os.environ)
